@@ -10,6 +10,9 @@ Lines:
   `garbage` | `single <elem>` | `batch <elem>*`               → `<reply> inv=<log> act=<active subs> conn=<open|closed|->`
        elem = `shape|keys|id|method|tyErr|params`  (see `parseElem`)
   `setkey <flag x-hex> <api.key content x-hex | ->`          → `key=<x-hex|random> file=<=key|x-hex|->`
+  `nodekey <cli|mobile|struct> <configured key x-hex> <api.key x-hex | ->`
+       → `key=… file=… initial=<outcome of a key-less bcn_syncing on the initial endpoint> keyless=… wrong=… right=…`
+  `gfact nodector <func> <yes|no>` / `gfact rpcstart <callee> <encl> <recv|norecv>` / `gfact initial-order <…>` → `ok`
   `gfact stmt <kind>` / `gfact site <callee> <encl>` / `gfact handle-first <kind>` / `gfact loop <what>`  → `ok`
   `gfact newserver <encl> <kind> <callers>` / `gfact keypass <caller> <callee> <class>`                   → `ok`
   `gfact-check`                                               → `gate-first=<ok|VIOLATED> callgraph=<…> handle-first=<…> loop=<…> keyflow=<…>`
@@ -29,6 +32,9 @@ structure DSt where
   loops : List String := []
   newServers : List (String × String × Nat) := []
   keyPass : List String := []
+  ctors : List (String × String) := []
+  rpcStarts : List String := []
+  initialOrder : String := "unknown"
 
 /-- `s<hex>` ↦ bytes (`s` alone = empty string) -/
 def parseS (t : String) : Option Str :=
@@ -136,6 +142,30 @@ def runMsg (d : DSt) (m : Msg) : DSt × String :=
    showReply r.2 ++ " inv=" ++ ",".intercalate (inv.map showInv) ++
    " act=" ++ ",".intercalate ((sortNat st'.active).map toString) ++ " conn=" ++ conn)
 
+/-- `rpc_modules` / `bcn_syncing` and the registries of the two endpoints of a node as far as `nodekey` asks them -/
+def mModules : Str := [114, 112, 99, 95, 109, 111, 100, 117, 108, 101, 115]
+def mSyncing : Str := [98, 99, 110, 95, 115, 121, 110, 99, 105, 110, 103]
+
+def fullCfg (k : Str) : Cfg :=
+  { apiKey := k
+    notifier := false
+    services := [{ name := [114, 112, 99]
+                   callbacks := [([109, 111, 100, 117, 108, 101, 115], { nargs := 0, logged := false })]
+                   subscriptions := [] }] }
+
+def initialCfg (k : Str) : Cfg :=
+  { apiKey := k
+    notifier := false
+    services := [{ name := [98, 99, 110]
+                   callbacks := [([115, 121, 110, 99, 105, 110, 103], { nargs := 0, logged := false })]
+                   subscriptions := [] }] }
+
+def ask (cfg : Cfg) (m : Str) (ks : List KeyVal) (ps : Params) : String :=
+  match (serve cfg {} (.single { keys := ks, method := some m, params := ps })).2 with
+  | .one o => showOutcome o
+  | .msgErr c => "msgerr:" ++ toString c
+  | .many _ => "many"
+
 def parseStmt (t : String) : Stmt :=
   if t = "decl" then .decl else if t = "parseErr" then .parseErr else if t = "gate" then .gate
   else if t = "branch" then .branch else if t = "tail" then .tail else .unclassified
@@ -172,6 +202,26 @@ def step (d : DSt) (line : String) : DSt × String :=
         | some c => if c == r.1 then "=key" else bytesToHex c
       (d, "key=" ++ keyTok ++ " file=" ++ fileTok)
     | _, _ => (d, "bad-op")
+  | ["nodekey", entry, flag, file] =>
+    if entry ≠ "cli" ∧ entry ≠ "mobile" ∧ entry ≠ "struct" then (d, "bad-op") else
+    let f : Option (Option Str) := if file = "-" then some none else (parseHex file).map some
+    match parseHex flag, f with
+    | some fl, some fi =>
+      let r := setApiKey fl fi [0]
+      let isRnd := r.1 == [0]
+      let keyTok := if r.1.isEmpty then "empty" else if isRnd then "random" else bytesToHex r.1
+      let fileTok := if r.2 then "=key" else match fi with
+        | none => "-"
+        | some c => if c == r.1 then "=key" else bytesToHex c
+      (d, "key=" ++ keyTok ++ " file=" ++ fileTok ++
+          " initial=" ++ ask (initialCfg (initialEndpointKey fl fi [0])) mSyncing [] (.arr []) ++
+          " keyless=" ++ ask (fullCfg r.1) mModules [] .absent ++
+          " wrong=" ++ ask (fullCfg r.1) mModules [.str r.1.dropLast] .absent ++
+          " right=" ++ ask (fullCfg r.1) mModules [.str r.1] .absent)
+    | _, _ => (d, "bad-op")
+  | ["gfact", "nodector", f, ok] => ({ d with ctors := (f, ok) :: d.ctors }, "ok")
+  | ["gfact", "rpcstart", _, _, r] => ({ d with rpcStarts := r :: d.rpcStarts }, "ok")
+  | ["gfact", "initial-order", o] => ({ d with initialOrder := o }, "ok")
   | ["gfact", "stmt", k] => ({ d with stmts := parseStmt k :: d.stmts }, "ok")
   | ["gfact", "site", callee, encl] => ({ d with sites := (callee, encl) :: d.sites }, "ok")
   | ["gfact", "handle-first", k] => ({ d with handleFirst := k :: d.handleFirst }, "ok")
@@ -186,8 +236,11 @@ def step (d : DSt) (line : String) : DSt × String :=
       " callgraph=" ++ okv (callGraphOk d.sites) ++
       " handle-first=" ++ okv (d.handleFirst == ["err-return"]) ++
       " loop=" ++ okv (d.loops == ["range-all-headers"]) ++
-      " keyflow=" ++ okv (keyFlowOk d.newServers d.keyPass)
-    ({ d with stmts := [], sites := [], handleFirst := [], loops := [], newServers := [], keyPass := [] }, ans)
+      " keyflow=" ++ okv (keyFlowOk d.newServers d.keyPass) ++
+      " ctor=" ++ okv (ctorOk d.ctors d.rpcStarts d.initialOrder) ++
+      " initial-endpoint=" ++ d.initialOrder ++ "-key-resolution"
+    ({ d with stmts := [], sites := [], handleFirst := [], loops := [], newServers := [], keyPass := [],
+              ctors := [], rpcStarts := [], initialOrder := "unknown" }, ans)
   | _ => (d, "bad-op")
 
 end IdenaModel.Drv.C19
